@@ -1,9 +1,70 @@
 import PyamgV.Driver.Util
-/-! Driver ops for property C02 (line protocol). Op names are prefixed `c02_`. -/
+import PyamgV.Model.C02Cycle
+/-! Driver ops for property C02 (line protocol). Op names are prefixed `c02_`.
+
+* `c02_energy_le n ap aj ax e e'`            -> `true|false` : `e'ᵀ A e' ≤ eᵀ A e` in exact arithmetic
+* `c02_functional_le n ap aj ax b x x'`      -> `true|false` : `J(x') ≤ J(x)`, `J(x) = xᵀAx − 2bᵀx`
+* `c02_cycle cyc cpl n ap aj ax x b k (nr nc ap aj ax pre post)*k`
+      -> `x' # symmetric # J(x') ≤ J(x) # coarsest matrix # pivots positive # data hypotheses` (numbers as integers `⌊q·2¹²⁰⌋`) : one cycle of the model on the hierarchy
+         it builds exactly from `A₀` and the `P`s (`R = Pᵀ`, Galerkin products, exact coarse solve);
+         `singular` when the coarsest matrix has no inverse.
+  Smoother tokens: `none`, `gs:ω:sweep:iters`, `jac:ω:iters`. -/
 namespace PyamgV.Drv.C02
-open PyamgV PyamgV.Drv
+open PyamgV PyamgV.Drv PyamgV.K PyamgV.C02
+
+def mkR (n ap aj ax : String) : Csr Rat := ⟨nat n, parseNats ap, parseNats aj, parseRats ax⟩
+
+def parseSm (s : String) : Option (Sm Rat) :=
+  match s.splitOn ":" with
+  | ["none"] => some .none
+  | ["gs", om, sw, it] =>
+    let sweep := if sw = "backward" then Sweep.backward else if sw = "symmetric" then Sweep.symmetric else Sweep.forward
+    (parseRat? om).map (fun ω => Sm.gs ω sweep (nat it))
+  | ["jac", om, it] => (parseRat? om).map (fun ω => Sm.jac ω (nat it))
+  | _ => none
+
+def parseCyc (s : String) : Option Cyc :=
+  if s = "V" then some .V else if s = "W" then some .W else if s = "F" then some .F else none
+
+def parseLevels : Nat → List String → Option (List (PSpec Rat))
+  | 0, [] => some []
+  | k + 1, nr :: nc :: ap :: aj :: ax :: pre :: post :: rest => do
+    let p ← parseSm pre
+    let q ← parseSm post
+    let tl ← parseLevels k rest
+    some (⟨nat nr, nat nc, mkR nr ap aj ax, p, q⟩ :: tl)
+  | _, _ => none
+
+/-- results are reported rounded down to multiples of 2⁻¹²⁰ (the exact numbers have thousands of
+digits); the exact comparisons are made before rounding -/
+def scale : Rat := (2 : Rat) ^ 120
+def showApprox (q : Rat) : String := toString (q * scale).floor
+def showApproxs (a : Array Rat) : String := sh (a.toList.map showApprox)
+def showApproxMat (m : Array (Array Rat)) : String :=
+  if m.isEmpty then "-" else String.intercalate ";" (m.toList.map showApproxs)
+
+def showB (b : Bool) : String := if b then "true" else "false"
+
+def runCycle (c : Cyc) (cpl : Nat) (A0 : Csr Rat) (x b : Array Rat) (specs : List (PSpec Rat)) : String :=
+  let (ls, Ac, _) := mkHierarchy A0 specs
+  -- the direct coarse solve: elimination once per call of the coarse solver
+  match gaussSolve Ac (zeros Ac.size) with
+  | none => "singular"
+  | some _ =>
+    let solve : Array Rat → Array Rat := fun rhs => (gaussSolve Ac rhs).getD (zeros rhs.size)
+    let x' := cycle solve c cpl ls x b
+    showApproxs x' ++ "#" ++ showB (isSymmetric A0) ++ "#" ++ showB (functionalLe A0 b x x') ++ "#" ++ showApproxMat Ac
+      ++ "#" ++ showB (pivotsPositive (toDense A0 A0.n)) ++ "#" ++ showB (checkLevels Ac Ac.size ls)
 
 def handle : List String → Option String
+  | ["c02_energy_le", n, ap, aj, ax, e, e'] =>
+    some <| showB (energyLe (mkR n ap aj ax) (parseRats e) (parseRats e'))
+  | ["c02_functional_le", n, ap, aj, ax, b, x, x'] =>
+    some <| showB (functionalLe (mkR n ap aj ax) (parseRats b) (parseRats x) (parseRats x'))
+  | "c02_cycle" :: cyc :: cpl :: n :: ap :: aj :: ax :: x :: b :: k :: rest =>
+    match parseCyc cyc, parseLevels (nat k) rest with
+    | some c, some specs => some <| runCycle c (nat cpl) (mkR n ap aj ax) (parseRats x) (parseRats b) specs
+    | _, _ => some "bad-request"
   | _ => none
 
 end PyamgV.Drv.C02
